@@ -19,7 +19,7 @@ before storing it as `seeded/<id>/` (patch.diff, demo_test.go, demo_output.txt, 
 `./mutcheck <property> seeded/<id>/patch.diff` applies it to a scratch copy of /repo that is
 bind-mounted over /repo in a private mount namespace (so /repo itself is never touched and
 concurrent checks do not see the change), runs the property's quick check and removes the
-copy.  All %d but one (C09-20, round 11, still open: concurrent fallback lookups on a shared pomsg provider) are detected today (exit 1 with a VIOLATION line); the last column says whether
+copy.  All %d are detected today (exit 1 with a VIOLATION line); the last column says whether
 that was so at the first attempt and, if not, what was added.
 
 Eleven rounds were run.  Rounds 1-3 covered all twenty properties (three changes each per round), rounds
@@ -28,7 +28,7 @@ for less central ones (interactions of two features, rarely used entry points, h
 paths, histories).  Share missed at the first attempt: round 1 40%%, round 2 27%%, round 3 20%%, round 4
 (eight properties, 24 changes, the harder brief) 42%%, round 5 (twelve properties, 36 changes, same brief, after
 the generators had been widened again) 11%%, round 6 (twelve properties, 36 changes; about a third of them
-re-invented an idea of an earlier round, which were all caught) 8%%, round 7 (eight properties, 24 changes) 12%%, round 8 (eight properties once more — C01 C04 C07 C11 C13 C14 C15 C19, 24 changes, after the defect hunt's widenings) 12%% (a let that is the ONLY child of its block; an untranslated message inside a shadowing block; blank text right after the last header param), round 9 (the other twelve properties, 36 changes) 11%% (an escape cut short behind a high surrogate; a process-wide memo that is wrong from the first render on; an error dropped only for writers with WriteString; a map keyed by a named string type), round 10 (ten properties once more - C04 C05 C06 C07 C08 C11 C12 C13 C15 C20, 30 changes; a third of them re-invented earlier ideas) 3%% (an integral float result beyond 2^53 printed through int64), round 11 (ten properties - first C01 C02 C10 C14 C17 C19, two changes each, each needing a specific shape: a ?: in a ternary's condition, an exponent printed with +, an int-left comparison with a fractional float, a negation right after ?:, non-printable astral code points, Go-quoted map keys, an unterminated string on a later line of its tag, a failing callee behind a multi-line content param, fingerprints of length 12k, a base name of the form BASE_N, a let read before it is set in the next iteration, a default before a matching case; then C03 C09 C16 C18, two each) 10%% (the deprecated spelling of autoescape="contextual" - closed; concurrent fallback lookups on a shared pomsg provider - open).  Six earlier changes were retired (seeded/obsolete/): later fix: commits made them moot - the library itself now does what they did, or the code they changed is gone; 38 patches whose context lines had moved were re-created on the current tree and re-confirmed.  Every miss pointed at an input CLASS the
+re-invented an idea of an earlier round, which were all caught) 8%%, round 7 (eight properties, 24 changes) 12%%, round 8 (eight properties once more — C01 C04 C07 C11 C13 C14 C15 C19, 24 changes, after the defect hunt's widenings) 12%% (a let that is the ONLY child of its block; an untranslated message inside a shadowing block; blank text right after the last header param), round 9 (the other twelve properties, 36 changes) 11%% (an escape cut short behind a high surrogate; a process-wide memo that is wrong from the first render on; an error dropped only for writers with WriteString; a map keyed by a named string type), round 10 (ten properties once more - C04 C05 C06 C07 C08 C11 C12 C13 C15 C20, 30 changes; a third of them re-invented earlier ideas) 3%% (an integral float result beyond 2^53 printed through int64), round 11 (ten properties - first C01 C02 C10 C14 C17 C19, two changes each, each needing a specific shape: a ?: in a ternary's condition, an exponent printed with +, an int-left comparison with a fractional float, a negation right after ?:, non-printable astral code points, Go-quoted map keys, an unterminated string on a later line of its tag, a failing callee behind a multi-line content param, fingerprints of length 12k, a base name of the form BASE_N, a let read before it is set in the next iteration, a default before a matching case; then C03 C09 C16 C18, two each) 10%% (the deprecated spelling of autoescape="contextual" - closed; concurrent fallback lookups on a shared pomsg provider - closed too, by a racer part of its own).  Six earlier changes were retired (seeded/obsolete/): later fix: commits made them moot - the library itself now does what they did, or the code they changed is gone; 38 patches whose context lines had moved were re-created on the current tree and re-confirmed.  Every miss pointed at an input CLASS the
 generators did not produce (same-name nested loops, header-param defaults, one Bundle compiled twice,
 Go structs as render data, catalogues whose plural rule is not the locale's customary one, lone CR,
 runes that alias '<' modulo 256, ...) or at an oracle that took the implementation's word (an
